@@ -25,8 +25,33 @@ def probe_src(e):
             "{%% else %%}#{%% endif %%}" % ((e,) * 5))
 
 
+class StrSub(str):
+    """a user-defined str subclass (neither exactly str nor Markup)"""
+
+
+STR_KINDS = {"str": str, "markup": Markup, "sub": StrSub}
+
+
 def target_src(t):
-    return repr(t[1]) if t[0] == "n" else "tobj_" + t[1]
+    """how a target is written: a literal name, a Template object in a render variable, a NAME in a render variable
+    (exact str / Markup / user str subclass), a name produced by a set block (Markup under autoescape), a literal
+    marked |safe (Markup)"""
+    k = t[0]
+    if k == "n":
+        return repr(t[1])
+    if k == "o":
+        return "tobj_" + t[1]
+    if k == "v":
+        return "tnm_%s_%s" % (t[1], t[2])
+    if k == "s":
+        return "zn_" + t[1]
+    if k == "f":
+        return "%r|safe" % t[1]
+    raise AssertionError(t)
+
+
+def target_pre(ts_):
+    return "".join("{%% set zn_%s %%}%s{%% endset %%}" % (t[1], t[1]) for t in ts_ if t[0] == "s")
 
 
 class Src:
@@ -48,6 +73,7 @@ class Src:
                 out.append("{%% macro %s() %%}%s{%% endmacro %%}" % (s[1], s[2]))
             elif k == "i":
                 _, ts, is_list, wc, ign = s
+                out.append(target_pre(ts) if is_list != "var" else "")
                 if is_list == "var":
                     e = "lst_" + "_".join(t[0] + t[1] for t in ts) if ts else "lst_empty"
                 elif is_list == "tuple":
@@ -58,10 +84,12 @@ class Src:
                                                       "" if wc is None else (" with context" if wc else " without context")))
             elif k == "I":
                 _, t, alias, wc = s
+                out.append(target_pre([t]))
                 out.append("{%% import %s as %s%s %%}" % (target_src(t), alias,
                                                         "" if wc is None else (" with context" if wc else " without context")))
             elif k == "F":
                 _, t, names, wc = s
+                out.append(target_pre([t]))
                 out.append("{%% from %s import %s%s %%}" % (
                     target_src(t), ", ".join(n if n == a else f"{n} as {a}" for n, a in names),
                     "" if wc is None else (" with context" if wc else " without context")))
@@ -95,7 +123,7 @@ class Src:
 def sources(ts):
     res = {}
     for n, t in ts["templates"].items():
-        out = ["{%% extends %s %%}" % target_src(s[1]) for s in t["body"] if s[0] == "X"]
+        out = [target_pre([s[1]]) + "{%% extends %s %%}" % target_src(s[1]) for s in t["body"] if s[0] == "X"]
         Src().stmts(t["body"], out)
         res[n] = "".join(out)
     return res
@@ -106,7 +134,7 @@ def flag(wc, default):
 
 
 def enc_target(t, out):
-    out += [t[0], str(TNAMES[t[1]])]
+    out += ["o" if t[0] == "o" else "n", str(TNAMES[t[1]])]
 
 
 def enc_stmts(ss, out):
@@ -207,14 +235,31 @@ def real_render(jinja2, ts, env=None, history=False):
         data = dict(ts["data"])
         for n in ts.get("objects", []):
             data["tobj_" + n] = env.get_template(n)
+        for n, kind in ts.get("names", []):
+            data["tnm_%s_%s" % (n, kind)] = STR_KINDS[kind](n)
         for var, targets in ts.get("lists", {}).items():
-            data[var] = [env.get_template(t[1]) if t[0] == "o" else t[1] for t in targets]
+            data[var] = [env.get_template(t[1]) if t[0] == "o" else
+                         (Markup(t[1]) if i % 2 else StrSub(t[1]) if i % 3 == 0 else t[1]) for i, t in enumerate(targets)]
         if history:
             # an earlier render of the same environment (cached templates, cached default modules) with other data
-            # (the template-level globals keep their values: a default module cached before a later
-            # get_template(name, globals=...) update is not refreshed - cache freshness, not C05's visibility rule)
+            # and with OTHER VALUES of the same template-level globals: the named templates re-fetched with new globals
+            # (since db6ea53 a globals update rebuilds the cached default module), and an UNNAMED template
+            # (from_string) with the main template's source and other global values
             try:
-                d0 = {k: (v if k.startswith(("tobj_", "lst_")) else "OLD" + str(k)) for k, v in data.items()}
+                # only the rendered template is re-fetched with other values: a template that others include or import
+                # without context has its output inside THEIR cached default modules, which a later globals update
+                # does not rebuild (cache freshness, C25 - not C05's visibility rule)
+                mt = ts["templates"][ts["main"]]
+                if mt["globals"]:
+                    env.get_template(ts["main"], globals={k: "OLD" + str(v) for k, v in mt["globals"].items()})
+                try:
+                    src0 = env.loader.get_source(env, ts["main"])[0]
+                    env.from_string(src0, globals={k: "OLD" + str(v) for k, v in
+                                                   ts["templates"][ts["main"]]["globals"].items()}).render(
+                        {k: v for k, v in data.items() if k.startswith(("tobj_", "lst_", "tnm_"))})
+                except Exception:  # noqa
+                    pass
+                d0 = {k: (v if k.startswith(("tobj_", "lst_", "tnm_")) else "OLD" + str(k)) for k, v in data.items()}
                 d0.update({k: "OLD" + k for k in ("a", "b", "c", "d", "x", "y", "i", "mg")})
                 env.get_template(ts["main"]).render(d0)
             except Exception:  # noqa
@@ -267,15 +312,29 @@ class IGen:
         r = self.r
         k = r.random()
         if allow_missing and k < 0.12:
-            return ("n", r.choice(["nope", "nope2"]))
+            return self.spell(r.choice(["nope", "nope2"]), is_main)
         fwd, back = tnames
         n = r.choice(back) if (not fwd or r.random() < 0.008) else r.choice(fwd)
         if is_main and k > 0.88:
             self.objects.add(n)
             return ("o", n)
-        return ("n", n)
+        return self.spell(n, is_main)
 
-    def body(self, tname, tnames, top, depth, assigned, later):
+    def spell(self, n, is_main):
+        """the name as a literal or as a computed value of some str kind"""
+        r = self.r
+        k = r.random()
+        if k < 0.75:
+            return ("n", n)
+        if k < 0.85:
+            return ("s", n)
+        if k < 0.92 or not is_main:
+            return ("f", n)
+        kind = r.choice(["str", "markup", "sub"])
+        self.names.add((n, kind))
+        return ("v", n, kind)
+
+    def body(self, tname, tnames, top, depth, assigned, later, frame_assigned=None):
         """assigned: names bound so far in this function (readable); later: names that will be bound later in an
         enclosing scope of this template and must not be read before (engine quirk outside C05)"""
         r = self.r
@@ -340,6 +399,9 @@ class IGen:
                 stmts.append(["o", self.word()])
         stmts.append(["p", None])
         assigned = set(assigned)
+        # names bound in THIS function frame (a block is a function of its own: what the enclosing template level
+        # assigned reaches it through the context, but a later assignment inside the block makes the name local)
+        frame_assigned = assigned if frame_assigned is None else set(frame_assigned)
         for i, s in enumerate(stmts):
             pending = set()
             for s2 in stmts[i:]:
@@ -349,10 +411,10 @@ class IGen:
                     pending.add(s2[2])
                 elif s2[0] == "F":
                     pending.update(a for _, a in s2[2])
-            blocked = (pending | later) - assigned
+            blocked = (pending | later) - frame_assigned
             if s[0] == "p":
                 pool = [p for p in PROBE_POOL if p not in blocked]
-                mods = [m for m in ("m1", "m2") if m in assigned]
+                mods = [m for m in ("m1", "m2") if m in assigned and m not in blocked]
                 if mods and r.random() < 0.4:
                     out.append(("a", r.choice(mods), r.choice(["a", "b", "c", "d", "f1", "f2", "_p", "x"])))
                 else:
@@ -363,21 +425,27 @@ class IGen:
                     e = ("c", self.word())
                 out.append(("s", s[1], e))
                 assigned.add(s[1])
+                frame_assigned.add(s[1])
             elif s[0] == "m":
                 out.append(("m", s[1], s[2]))
                 assigned.add(s[1])
+                frame_assigned.add(s[1])
             elif s[0] == "i":
                 out.append(("i", s[1], s[2], s[3], s[4]))
             elif s[0] == "I":
                 out.append(("I", s[1], s[2], s[3]))
                 assigned.add(s[2])
+                frame_assigned.add(s[2])
             elif s[0] == "F":
                 out.append(("F", s[1], s[2], s[3]))
                 assigned.update(a for _, a in s[2])
+                frame_assigned.update(a for _, a in s[2])
             elif s[0] == "S":
                 inner_later = blocked
                 body = self.body(tname, tnames, False, depth + 1,
-                                 (assigned if s[1] in ("b", "B") else assigned | {s[2]}), inner_later)
+                                 (assigned if s[1] in ("b", "B") else assigned | {s[2]}),
+                                 (set() if s[1] in ("b", "B") else inner_later),
+                                 frame_assigned=(set() if s[1] in ("b", "B") else frame_assigned | {s[2]}))
                 out.append(("S", s[1], s[2], s[3], body))
             else:
                 out.append(("o", s[1]))
@@ -386,6 +454,7 @@ class IGen:
     def tset(self):
         r = self.r
         self.objects = set()
+        self.names = set()
         self.lists = {}
         nt = r.randint(2, 4)
         tnames = ["main", "t1", "t2", "t3"][:nt]
@@ -422,7 +491,8 @@ class IGen:
         if r.random() < 0.2:
             data["i"] = "DI"
         return {"templates": templates, "main": "main", "data": data, "env_globals": {"g": "G"},
-                "objects": sorted(self.objects), "lists": dict(self.lists)}
+                "objects": sorted(self.objects), "lists": dict(self.lists),
+                "names": sorted(self.names)}
 
 
 def directed_sets():
